@@ -14,6 +14,7 @@ From KV Require Import Iter.
 From KV Require Import Compaction.
 From KV Require Import Txn.
 From KV Require Import TxnAtomic.
+From KV Require Import Service.
 Extraction Language OCaml.
 (* Coq's String module (identifiers of the C07 lock table) must not shadow OCaml's: it is emitted as String0 *)
 Extraction Blacklist String.
@@ -50,4 +51,5 @@ Separate Extraction
   Compaction.select_range Compaction.dsort Compaction.nfresh
   Txn.ser_check Txn.ser_why
   TxnAtomic.atomic_check TxnAtomic.first_reject TxnAtomic.crun TxnAtomic.twrites TxnAtomic.cinit
+  Service.service_step Service.sstep Service.srun Service.sinit Service.code_limits Service.req_size
 .
